@@ -13,6 +13,7 @@ from .rules import t_tables as T
 from .rules import d_derive as D
 from .rules import g_grammar as G
 from . import thorough as TH
+from . import selftest as ST
 
 
 def _n1(an, rep):
@@ -92,7 +93,8 @@ PROPS = {
     "C05": {
         "level": "other",
         "rules": [_n1, N.sign_loss_casts, N.alloc_taint, N.loops_progress, E.decode_errors, P.sources_agree, R.coordinates,
-                  U.inventory, U.transmutes, U.uninit_apis, D.validate, D.macrolint],
+                  U.inventory, U.transmutes, U.uninit_apis, D.validate, D.macrolint,
+                  ST.make(["N1/panic", "N1/index", "N3", "N4", "E1", "U2", "U3"])],
         "thorough": [TH.feature_matrix_totality],
         "explanation": "Static totality argument for the decode side over the resolved MIR of desert_core: every may-panic site "
                        "reachable from the decode entry points is enumerated and discharged (N1), no signed wire integer "
@@ -223,7 +225,7 @@ PROPS = {
     "C16": {
         "level": "other",
         "rules": [G.compressed_frame, N.alloc_taint, N.narrowing_casts, P.sources_agree, E.decode_errors, E.encode_errors,
-                  E.error_sites],
+                  E.error_sites, ST.make(["N4", "E1"])],
         "explanation": "Frame structure on both sides (G10: VarU32 len(input), VarU32 len(deflated), deflated bytes; the reader "
                        "consumes exactly the second length on every successful path; everything is deflated / inflated with "
                        "read_to_end), true lengths through checked conversions (N6), no reservation from the untrusted length "
@@ -257,7 +259,7 @@ PROPS = {
     "C19": {
         "level": "other",
         "rules": [U.inventory, U.transmutes, U.uninit_apis, U.raw_provenance, W.lifetime_witnesses, W.auto_traits,
-                  G.sequences],
+                  G.sequences, ST.make(["U2", "U3"])],
         "explanation": "Closed inventory of unsafe operations (U1) with a typed obligation at each transmute (U2), no "
                        "uninitialised-memory API (U3), a provenance rule for raw pointers that are handed back as references "
                        "(U4), compiler verdicts on a catalogue of lifetime-escape witnesses with compiling twins (U5/U6), "
